@@ -119,6 +119,7 @@ type FuncContract struct {
 	Line     int
 	Bounded  string
 	ParamSet map[string]string // notnil etc.
+	TrustNonNil []string // `trust nonnil pkg.Iface`: methods of that interface return non-nil pointers when their error is nil
 }
 
 func (fc *FuncContract) base() string      { return safeName(fc.Func) + fc.uniq }
@@ -256,6 +257,15 @@ func parseContractText(text, path, pkgPath string) ([]*FuncContract, error) {
 			last = nil
 		case word == "trusted":
 			cur.Trusted = true
+			last = nil
+		case word == "trust":
+			// trust nonnil <pkg.Interface>: a call of a method of that interface that returns a nil error returns
+			// non-nil pointer results (the Go convention the code relies on without checking); listed as trusted
+			ws := strings.Fields(rest)
+			if len(ws) != 2 || ws[0] != "nonnil" {
+				return nil, fmt.Errorf("%s:%d: want `trust nonnil <pkg.Interface>`", path, n+1)
+			}
+			cur.TrustNonNil = append(cur.TrustNonNil, ws[1])
 			last = nil
 		case word == "pure":
 			cur.Pure = true // at call sites the function is an uninterpreted (deterministic) function of its arguments
